@@ -95,7 +95,7 @@ type outcome struct {
 
 func runMachine(m *xpath.Machine, it Item) string {
 	tr := &tree.Tree{NoRecord: true}
-	res := xpath.NewCtxFromCurrent(context.Background(), m, tr.At(it.Ctx)).Run()
+	res := xpath.NewCtxFromCurrent(context.Background(), m, tr.At(it.Ctx)).SetDebug(len(it.Src)%4 == 0).Run()
 	if err := res.GetError(); err != nil {
 		return "error: " + err.Error()
 	}
